@@ -212,18 +212,30 @@ func c04Case(job *Job, res *Result, l *c04Log, label string, content []byte, bou
 		dir := x.dir + "/T"
 		os.MkdirAll(dir, 0700)
 		f := filepath.Join(dir, "appendonly.aof")
+		var startOpt func(o *Options)
+		if replay["custom"] == true {
+			// the log lives under another name (--appendfilename); a stale file with the default name lies next to it
+			f = filepath.Join(dir, "data.log")
+			os.WriteFile(filepath.Join(dir, "appendonly.aof"), []byte("stale default-named file\r\n"), 0600)
+			startOpt = func(o *Options) { o.AppendFileName = f }
+		}
 		os.WriteFile(f, content, 0600)
 		ro := replay["ro"] == true
 		if ro {
 			os.WriteFile(filepath.Join(dir, "config"), []byte(`{"read_only":true}`), 0600)
 		}
-		in, err := x.TryStart("T", dir, 9001, nil)
+		in, err := x.TryStart("T", dir, 9001, startOpt)
 		if err != nil {
 			viol("start-fails", fmt.Sprintf("server does not start: %v", err))
 			return
 		}
 		c := x.Dial(in.Addr)
 		d := fullDump(c)
+		if replay["custom"] == true {
+			if b, _ := os.ReadFile(filepath.Join(dir, "appendonly.aof")); string(b) != "stale default-named file\r\n" {
+				viol("foreign-file-touched", fmt.Sprintf("the file with the default name, which is not this server's log, was changed to %q", vclip(string(b), 60)))
+			}
+		}
 		if ro {
 			if r := c.Do(c04ExtraCmd...); !strings.Contains(r.String(), "read only") {
 				viol("read-only-ignored", "a server configured read-only replied "+r.String()+" to a write")
@@ -248,7 +260,7 @@ func c04Case(job *Job, res *Result, l *c04Log, label string, content []byte, bou
 		d1 := fullDump(c)
 		c.Close()
 		in.Stop()
-		in2, err := x.TryStart("T2", dir, 9002, nil)
+		in2, err := x.TryStart("T2", dir, 9002, startOpt)
 		if err != nil {
 			viol("second-start-fails", fmt.Sprintf("server does not start after one more write: %v", err))
 			return
@@ -392,9 +404,13 @@ func checkC04(job *Job, res *Result) {
 				continue
 			}
 			b := l.boundaryAt(o)
-			if only == nil || only["ro"] != true {
+			if only == nil || (only["ro"] != true && only["custom"] != true) {
 				c04Case(job, res, l, fmt.Sprintf("log %s (%d bytes) torn at offset %d, last complete command ends at %d", kind, len(l.Data), o, b),
 					l.Data[:o], b, b, map[string]any{"log": kind, "kind": "tear", "offset": o})
+			}
+			if only != nil && only["custom"] == true || only == nil && small && o%11 == 3 {
+				c04Case(job, res, l, fmt.Sprintf("log %s (%d bytes) torn at offset %d, log file named data.log (AppendFileName)", kind, len(l.Data), o),
+					l.Data[:o], b, b, map[string]any{"log": kind, "kind": "tear", "offset": o, "custom": true})
 			}
 			if only != nil && only["ro"] == true || only == nil && (small && (kind == "binary" || o%7 == 0) || !small && o%0xFFFF < 2) {
 				// the same tear met by a server configured read-only, made writable afterwards
